@@ -42,6 +42,15 @@
 //!                        reach the blocked `wait` in one wake-up or in two — the trap wins either way: 384+SIG, job not
 //!                        waited for)
 //!   tsn SIG N            the same without `( exit 0 )`: signal and SIGCHLD always arrive in ONE wake-up
+//!   tsr SIG N R          as `ts`, the trap action being `echo trapsig; st R`: its own status must not become that of `wait`
+//!   tsa SIG N            as `ts` with a `wait` WITHOUT operands (generated only while no other job is open)
+//!   ts2 SIG1 SIG2 N      the job sends SIG1, then SIG2 (both trapped): `wait` = 384+SIG1, trap of SIG1 first, that of SIG2
+//!                        after the built-in
+//!   tc N                 `trap 'echo trapchld' CHLD; ( exit N ) & wait $!`: SIGCHLD itself has a trap action — the exit of
+//!                        the job interrupts the `wait` for it (384+CHLD), the job stays waitable; always followed by
+//!   tcx                  `trap - CHLD`
+//! Not part of the case language (usable in `--script`): `failfork K` makes the (K+1)-th fork from now fail with EAGAIN
+//! (the executor refuses the spawn); `jcheck` is inserted before every probe by `render`.
 //!   tso SIG N O O …      as `ts`, the `wait` having further operands after `$!` (forms of `wj` except by-name): the trap ends the
 //!                        whole built-in (`?` in `await_jobs`): 384+SIG, none of the other operands is awaited or removed
 //!   ti                   `trap '' USR2; kill -s USR2 $$`
@@ -76,7 +85,9 @@
 //! Oracle (Rust side, independent of the Lean model): the observation of a (program, schedule) pair
 //! equals that of the first schedule explored for the same program (`FAIL:schedule-dependent`), no
 //! zombie (`FAIL:zombie`), descriptor hygiene of every `fd` pipeline evaluated on the real tables by inode
-//! identity (`FAIL:descriptors(…)`: stage k holds a pipe end exactly at 0 (k > 0, read end of its left
+//! identity; job / zombie accounting after every statement (`jcheck`, `FAIL:jobs(…)`: no child with an unreported
+//! state, every live child is the process of an owned job, every owned job has a child process in exactly the recorded
+//! state); (`FAIL:descriptors(…)`: stage k holds a pipe end exactly at 0 (k > 0, read end of its left
 //! neighbour's stdout pipe) and at 1 (k < N-1, write end), everything else as before the pipeline, the
 //! subshell's own table unchanged and free of pipe ends afterwards), no deadlock (`FAIL:deadlock`), no livelock (`FAIL:TIMEOUT`).
 
@@ -347,8 +358,67 @@ fn observe_snaps() -> (String, Option<String>) {
     (text, fail)
 }
 
+thread_local! {
+    /// first disagreement between the job list and the process table found by `jcheck` in the run in progress
+    static JFAIL: RefCell<Option<String>> = const { RefCell::new(None) };
+}
+
+/// `jcheck`: zombie / job accounting at a command boundary, evaluated on the REAL process table and the REAL job list
+/// (main shell only; preserves `$?`).  `update_all_subshell_statuses` has just run (after the previous command) and the
+/// shell has not yielded since, so: (Z) no child of the shell holds an unreported state (a terminated child is reaped:
+/// no zombie outlives the command during which it ended); (A) every child that is alive (running or stopped) is the
+/// process of an owned job (no process without a job entry); (P) the process of every owned job exists and is a child
+/// of the shell (no job entry without a process); (S) the state recorded in the job entry IS the state of that process.
+fn jcheck_main(env: &mut VEnv, _args: Vec<Field>) -> BuiltinFuture<'_> {
+    let st = env.exit_status.0;
+    let me = env.system.getpid();
+    if me == env.main_pid {
+        let state = STATE.with(|s| s.borrow().clone());
+        if let Some(state) = state {
+            let table = state.borrow();
+            let mut fail: Option<String> = None;
+            for (pid, p) in table.processes.iter() {
+                if p.ppid() != me || *pid == me {
+                    continue;
+                }
+                if p.state_has_changed() {
+                    fail.get_or_insert(format!("unreported-state-of-child-{pid}"));
+                }
+                if p.state().is_alive() && !env.jobs.iter().any(|(_, j)| j.is_owned && j.pid == *pid) {
+                    fail.get_or_insert(format!("live-child-{pid}-without-job-entry"));
+                }
+            }
+            for (_, j) in env.jobs.iter() {
+                if !j.is_owned {
+                    continue;
+                }
+                match table.processes.get(&j.pid) {
+                    None => {
+                        fail.get_or_insert(format!("job-{}-without-process", j.pid));
+                    }
+                    Some(p) if p.ppid() != me => {
+                        fail.get_or_insert(format!("job-{}-is-not-a-child", j.pid));
+                    }
+                    Some(p) if p.state() != j.state => {
+                        fail.get_or_insert(format!("job-{}-state-{:?}-but-process-{:?}", j.pid, j.state, p.state()).replace(' ', ""));
+                    }
+                    Some(_) => {}
+                }
+            }
+            if let Some(f) = fail {
+                JFAIL.with(|v| {
+                    v.borrow_mut().get_or_insert(f);
+                });
+            }
+        }
+    }
+    Box::pin(async move { ExitStatus(st).into() })
+}
+
 fn flow_builtins() -> Vec<(&'static str, Builtin<VSys>)> {
     vec![
+        ("jcheck", Builtin::new(Type::Mandatory, jcheck_main)),
+        ("failfork", Builtin::new(Type::Mandatory, failfork_main)),
         ("fdsnap", Builtin::new(Type::Mandatory, fdsnap_main)),
         ("nap", Builtin::new(Type::Mandatory, nap_main)),
         ("spew", Builtin::new(Type::Mandatory, spew_main)),
@@ -390,11 +460,32 @@ impl Debug for Sched {
     }
 }
 
+thread_local! {
+    /// `failfork K`: the (K+1)-th `fork` from now on fails (the executor refuses to spawn the child task, which the
+    /// virtual system reports as EAGAIN); `None` = no failure pending
+    static FAIL_FORK: Cell<Option<usize>> = const { Cell::new(None) };
+}
+
+/// `failfork K`: makes the (K+1)-th fork from now fail with EAGAIN (once); preserves `$?`
+fn failfork_main(env: &mut VEnv, args: Vec<Field>) -> BuiltinFuture<'_> {
+    let st = env.exit_status.0;
+    FAIL_FORK.with(|c| c.set(Some(arg(&args, 0))));
+    Box::pin(async move { ExitStatus(st).into() })
+}
+
 impl Executor for Sched {
     fn spawn(
         &self,
         task: Pin<Box<dyn Future<Output = ()>>>,
     ) -> Result<(), Box<dyn std::error::Error>> {
+        match FAIL_FORK.with(|c| c.get()) {
+            Some(0) => {
+                FAIL_FORK.with(|c| c.set(None));
+                return Err("injected fork failure".into());
+            }
+            Some(k) => FAIL_FORK.with(|c| c.set(Some(k - 1))),
+            None => {}
+        }
         self.tasks.borrow_mut().push(Slot {
             fut: Some(task),
             flag: Arc::new(Flag(AtomicBool::new(true))),
@@ -488,6 +579,8 @@ struct RunOut {
     /// descriptor tables recorded by `fdsnap` (canonical text) and the hygiene oracle on them
     fds: String,
     fds_fail: Option<String>,
+    /// job / zombie accounting (`jcheck`)
+    jobs_fail: Option<String>,
 }
 
 const MAX_POLLS: usize = 200_000;
@@ -500,6 +593,8 @@ fn run_sched(script: &str, mut chooser: Chooser) -> RunOut {
     state.borrow_mut().executor = Some(Rc::clone(&sched) as Rc<dyn Executor>);
     STATE.with(|s| *s.borrow_mut() = Some(Rc::clone(&state)));
     SNAPS.with(|v| v.borrow_mut().clear());
+    JFAIL.with(|v| *v.borrow_mut() = None);
+    FAIL_FORK.with(|c| c.set(None));
     // virtual time (needed by `nap`): starts now, advanced by the run loop only when nothing is runnable
     state.borrow_mut().now = Some(std::time::Instant::now());
 
@@ -585,11 +680,12 @@ fn run_sched(script: &str, mut chooser: Chooser) -> RunOut {
     let stdout = read_file(&state, "/dev/stdout").unwrap_or_default();
     let stderr = read_file(&state, "/dev/stderr").unwrap_or_default();
     let (fds, fds_fail) = observe_snaps();
+    let jobs_fail = JFAIL.with(|v| v.borrow_mut().take());
     STATE.with(|s| *s.borrow_mut() = None);
     // break the Rc cycle state -> executor -> tasks -> state
     state.borrow_mut().executor = None;
     sched.tasks.borrow_mut().clear();
-    RunOut { stdout, stderr, status: status.unwrap_or(-1), stuck, deadlock, zombies, procs, taken: chooser.taken, fds, fds_fail }
+    RunOut { stdout, stderr, status: status.unwrap_or(-1), stuck, deadlock, zombies, procs, taken: chooser.taken, fds, fds_fail, jobs_fail }
 }
 
 /// The tail of `yash_cli::run_as_shell_process` (as in `yverif::shell`).
@@ -714,6 +810,42 @@ fn render_stmt(t: &str, nasync: &mut usize) -> Option<String> {
                 *nasync
             )
         }
+        ["tsr", sig, n, r] if SIGNALS.contains(sig) => {
+            *nasync += 1;
+            format!(
+                "trap 'echo trap{}; st {}' {sig}\n( kill -s {sig} $$; ( exit 0 ); exit {} ) & j{}=$!\nwait $j{}",
+                sig.to_lowercase(),
+                r.parse::<u32>().ok().filter(|r| *r < 256)?,
+                num(n)?,
+                *nasync,
+                *nasync
+            )
+        }
+        ["tsa", sig, n] if SIGNALS.contains(sig) => {
+            *nasync += 1;
+            format!(
+                "trap 'echo trap{}' {sig}\n( kill -s {sig} $$; ( exit 0 ); exit {} ) & j{}=$!\nwait",
+                sig.to_lowercase(),
+                num(n)?,
+                *nasync
+            )
+        }
+        ["ts2", s1, s2, n] if SIGNALS.contains(s1) && SIGNALS.contains(s2) && s1 != s2 => {
+            *nasync += 1;
+            format!(
+                "trap 'echo trap{}' {s1}\ntrap 'echo trap{}' {s2}\n( kill -s {s1} $$; kill -s {s2} $$; ( exit 0 ); exit {} ) & j{}=$!\nwait $j{}",
+                s1.to_lowercase(),
+                s2.to_lowercase(),
+                num(n)?,
+                *nasync,
+                *nasync
+            )
+        }
+        ["tc", n] => {
+            *nasync += 1;
+            format!("trap 'echo trapchld' CHLD\n( exit {} ) & j{}=$!\nwait $j{}", num(n)?, *nasync, *nasync)
+        }
+        ["tcx"] => "trap - CHLD".to_string(),
         ["tso", sig, n, ks @ ..] if SIGNALS.contains(sig) && !ks.is_empty() => {
             let v: Option<Vec<String>> = ks
                 .iter()
@@ -844,11 +976,11 @@ fn render(prog: &str) -> Option<String> {
         let ws: Vec<&str> = t.split_whitespace().collect();
         if ws.first() == Some(&"fd") {
             out.push_str(&render_fd(&ws[1..], idx)?);
-            out.push_str("\nprobe \"$!\" \"$x\"\n");
+            out.push_str("\njcheck\nprobe \"$!\" \"$x\"\n");
             continue;
         }
         out.push_str(&render_stmt(t, &mut nasync)?);
-        out.push_str("\nprobe \"$!\" \"$x\"\n");
+        out.push_str("\njcheck\nprobe \"$!\" \"$x\"\n");
     }
     Some(out)
 }
@@ -1358,7 +1490,19 @@ fn gen_program(r: &mut Rng, thorough: bool) -> String {
                         .collect();
                     stmts.push(format!("tso {sig} {st} {}", ops.join(" ")));
                 } else {
-                    stmts.push(format!("{} {sig} {st}", if r.chance(2, 3) { "ts" } else { "tsn" }));
+                    let alone = open.len() == 1; // no other job is open
+                    let v = match r.below(10) {
+                        0 => format!("tsr {sig} {st} {}", r.pick(&FLOW_STATUSES)),
+                        1 => {
+                            let other = *r.pick(&["USR1", "USR2", "TERM", "HUP"]);
+                            if other == sig { format!("ts {sig} {st}") } else { format!("ts2 {sig} {other} {st}") }
+                        }
+                        2 if alone => format!("tsa {sig} {st}"),
+                        3 if alone => format!("tc {st}; tcx"),
+                        4..=6 => format!("tsn {sig} {st}"),
+                        _ => format!("ts {sig} {st}"),
+                    };
+                    stmts.push(v);
                 }
                 if r.chance(2, 3) {
                     open.pop();
@@ -1387,7 +1531,13 @@ fn gen_program(r: &mut Rng, thorough: bool) -> String {
     stmts.join("; ")
 }
 
-const FIXED_PROGRAMS: [&str; 54] = [
+const FIXED_PROGRAMS: [&str; 60] = [
+    "tc 3; tcx; wj 1; w",
+    "tc 300; tcx; g 4; wj 1; wj 1; w",
+    "ts2 USR2 USR1 3; wj 1; w",
+    "bg s5; ts2 TERM HUP 7; wj 2; wj 1; w",
+    "tsa USR1 3; wj 1; w",
+    "tsr HUP 3 9; wj 1; pf1; tsr USR1 0 1; w",
     "bg s3; tso USR1 7 1; wj 2; wj 1; w",
     "bg s1; wj 1; tso HUP 4 1 u %; wj 2; w",
     "ts USR1 3; wj 1; w",
@@ -1472,6 +1622,8 @@ fn run_case(prog: &str, script: &str, chooser: Chooser, first: &mut Option<Strin
             "FAIL:zombie".into()
         } else if let Some(what) = &o.fds_fail {
             format!("FAIL:descriptors({what})")
+        } else if let Some(what) = &o.jobs_fail {
+            format!("FAIL:jobs({what})")
         } else if first.as_ref().is_some_and(|f| *f != obs) {
             format!("FAIL:schedule-dependent(first={})", first.as_ref().unwrap())
         } else {
